@@ -143,13 +143,12 @@ def real_filters(prog, cls):
             vals = [pconc(cls.partition("|")[2], c) for c in a["c"]]
         else:
             vals = [conc(ccls, k) for k in a["c"]]
-            # "~f" / "~s": the constants come in a different but comparable type - floats against an integer column, ISO
-            # text against a timestamp column
+            # "~f": the constants come in a different but comparable type - floats against an integer column.  (ISO text
+            # against a timestamp column is NOT comparable for this library: ordered comparisons raise TypeError and
+            # == / != answer as for any two values of unrelated types; it is outside the property's domain.)
             conv = cls.partition("|")[0].partition("~")[2]
             if conv == "f" and a["col"] == "x":
                 vals = [float(v) for v in vals]
-            elif conv == "s" and a["col"] == "x":
-                vals = [str(v) for v in vals]
         if a["op"] in ("in", "not in"):
             # the constants of a set operator may come in any container: list, tuple, set, frozenset, array
             import numpy as np
